@@ -4,6 +4,9 @@ report per-clause verdicts."""
 from __future__ import annotations
 
 import ast
+import json
+import os
+import signal
 import time
 import traceback
 
@@ -15,7 +18,7 @@ from .expr import OK, RAISE
 from .specs import SpecLib
 from .stmt import BREAK, CONTINUE, NORMAL, RETURN, StmtMixin, loops_in_order
 from .universe import Source, Universe
-from .vals import T, Tup, Unsupported
+from .vals import Cls, T, Tup, Unsupported
 
 
 class Engine(StmtMixin):
@@ -43,6 +46,7 @@ class Engine(StmtMixin):
         self.cur_module = mod
         self.cur_class = qual.split(".")[0] if "." in qual and qual.split(".")[0] in self.src.classes else None
         self.cur_contract = c
+        self.speclib.revealed = set(c.unfold)
         self.cur_fn_node = fn
         self.loop_ord = loops_in_order(fn)
         self.obligations = []
@@ -57,11 +61,21 @@ class Engine(StmtMixin):
             env[a.vararg.arg] = T("tuple", z3.Const("p_" + a.vararg.arg, U.SeqV))
         if a.kwarg:
             raise Unsupported("**kwargs parameter")
+        if fn.name == "__init__" and self.cur_class:
+            from .expr import Rec
+
+            env["self"] = Rec(self.cur_class)  # the object under construction
         is_gen = any(isinstance(n, (ast.Yield, ast.YieldFrom)) for n in _own_nodes(fn))
         st = State(dict(env), [], z3.Empty(U.SeqV) if is_gen else None, "code")
         st.ghost["entry"] = dict(env)
         spec_st = State(dict(env), [], None, "spec")
         pre = []
+        if self.cur_class and "self" in env and isinstance(env["self"], T) and not any(
+                isinstance(d, ast.Name) and d.id == "staticmethod" for d in fn.decorator_list):
+            # dynamic dispatch: a method body only ever runs with self an instance of its class
+            f = self.isinstance_term(env["self"], Cls(self.cur_class))
+            pre.append(f)
+            spec_st = spec_st.fork(f)
         for cl in c.requires:
             f = self.truthy(self.ev1(c.parsed(cl), spec_st))
             pre.append(f)
@@ -110,7 +124,11 @@ class Engine(StmtMixin):
         base = list(ob.hyps) + list(self.axioms)
         goal = ob.goal
         if ob.must_be_sat:
-            forms = [f for f in base if not _has_quant(f)] + [goal]
+            from .core import _abstract_quant
+
+            # satisfiability with quantified subformulas abstracted by Boolean constants: `unsat` is a
+            # definite vacuity, `sat` means the quantifier-free skeleton of the precondition is consistent
+            forms = [_abstract_quant(f) for f in base if not _has_quant(f)] + [_abstract_quant(goal)]
             r = self._check(forms, timeout_ms)[0]
             if r == z3.unknown:
                 s2 = z3.Solver()  # default tactic (no timeout parameter) is more complete on sat instances
@@ -118,9 +136,8 @@ class Engine(StmtMixin):
                     s2.add(f)
                 r = s2.check()
             return ("covered" if r == z3.sat else "vacuous" if r == z3.unsat else "unknown"), time.time() - t0, None
-        forms = base + [z3.Not(goal)]
-        facts = self.speclib.unfold(forms, depth=depth, known=base)
-        allf = forms + facts
+        forms = base + [z3.Not(self._skolemize(goal))]
+        allf = self.saturate(forms, base, depth)
         r, model = self._check(allf, timeout_ms)
         if r == z3.unknown:
             r, model = self._assisted(allf, timeout_ms, 2)
@@ -131,7 +148,95 @@ class Engine(StmtMixin):
             return "refuted", dt, model
         return "unknown", dt, None
 
-    def _check(self, forms, timeout_ms):
+    def saturate(self, forms, known, depth=2, rounds=2):
+        """definitional unfolding and sequence-element instantiation, alternated: instances mention new
+        spec applications (is_json(nodes[i].value)) and unfoldings mention new quantifiers"""
+        allf = list(forms)
+        new = list(forms)
+        for _ in range(rounds):
+            facts = self.speclib.unfold(new, depth=depth, known=known)
+            allf += facts
+            inst = self._instantiate(allf)
+            inst = [f for f in inst if not any(f.eq(g) for g in ())]
+            allf += inst
+            new = inst
+            if not inst:
+                break
+        return allf
+
+    def _skolemize(self, goal):
+        """universally quantified conjuncts of a goal: replace bound variables by fresh constants
+        (proving phi(c) for a fresh c proves forall j. phi(j)); makes the element terms visible to
+        `_instantiate`"""
+        if z3.is_quantifier(goal) and goal.is_forall():
+            cs = [z3.Const(fresh_name("sk_" + goal.var_name(i)), goal.var_sort(i)) for i in range(goal.num_vars())]
+            return self._skolemize(z3.substitute_vars(goal.body(), *reversed(cs)))
+        if z3.is_and(goal):
+            return z3.And(*[self._skolemize(c) for c in goal.children()])
+        if z3.is_app(goal) and goal.decl().kind() == z3.Z3_OP_IMPLIES:
+            return z3.Implies(goal.arg(0), self._skolemize(goal.arg(1)))
+        return goal
+
+    def _instantiate(self, forms, rounds=2):
+        """z3 rewrites seq.nth internally, so E-matching on `s[j]` patterns is unreliable (obligations
+        came back `unknown (incomplete theory seq)`). Do that instantiation here instead: for every
+        universally quantified subformula Q = forall j. phi(j) (one bound variable) whose body reads
+        S[j], and every ground term S[t] in the query, add the tautology Q -> phi(t)."""
+        added, seen_inst = [], set()
+        cur = list(forms)
+        for _ in range(rounds):
+            quants, nths = {}, {}
+            stack, seen = list(cur), set()
+            while stack:
+                t = stack.pop()
+                if t.get_id() in seen:
+                    continue
+                seen.add(t.get_id())
+                if z3.is_quantifier(t):
+                    if t.is_forall() and t.num_vars() == 1:
+                        quants[t.get_id()] = t
+                    # ground subterms inside the body are also candidates
+                    stack.append(t.body())
+                    continue
+                if z3.is_app(t):
+                    if t.decl().kind() == z3.Z3_OP_SEQ_NTH and not _has_free_var(t):
+                        nths.setdefault(t.arg(0).get_id(), []).append(t.arg(1))
+                    stack.extend(t.children())
+            new = []
+            for q in quants.values():
+                seqs = _nth_on_var(q.body())
+                for sq in seqs:
+                    if _has_free_var(sq):
+                        continue
+                    for idx in nths.get(sq.get_id(), []):
+                        key = (q.get_id(), idx.get_id())
+                        if key in seen_inst:
+                            continue
+                        seen_inst.add(key)
+                        new.append(z3.Implies(q, z3.substitute_vars(q.body(), idx)))
+            if not new:
+                break
+            added.extend(new)
+            cur = new
+        return added
+
+    def _check(self, forms, timeout_ms, inert=True):
+        """First with z3's own quantifier instantiation switched off: the quantifiers that matter range
+        over sequence elements and are instantiated by `_instantiate` (z3 cannot match on seq.nth), and
+        left to itself z3 runs into matching loops on the nested well-formedness predicates (trivial
+        goals timed out). `unsat` is sound either way; anything else is retried with z3's E-matching."""
+        from .core import _has_quant
+
+        has_q = any(_has_quant(f) for f in forms)
+        if has_q and inert:
+            s = z3.Solver()
+            s.set("timeout", int(min(timeout_ms, 4000)))
+            s.set("smt.ematching", False)
+            s.set("smt.mbqi", False)
+            for f in forms:
+                s.add(f)
+            if s.check() == z3.unsat:
+                return z3.unsat, None
         s = z3.Solver()
         s.set("timeout", int(timeout_ms))
         for f in forms:
@@ -230,6 +335,38 @@ class Engine(StmtMixin):
         return z3.unknown, None
 
 
+def _has_free_var(t):
+    stack, seen = [t], set()
+    while stack:
+        x = stack.pop()
+        if x.get_id() in seen:
+            continue
+        seen.add(x.get_id())
+        if z3.is_var(x):
+            return True
+        if z3.is_app(x):
+            stack.extend(x.children())
+        elif z3.is_quantifier(x):
+            stack.append(x.body())
+    return False
+
+
+def _nth_on_var(body):
+    """sequence terms S such that S[Var(0)] occurs in body"""
+    out = {}
+    stack, seen = [body], set()
+    while stack:
+        x = stack.pop()
+        if x.get_id() in seen:
+            continue
+        seen.add(x.get_id())
+        if z3.is_app(x):
+            if x.decl().kind() == z3.Z3_OP_SEQ_NTH and z3.is_var(x.arg(1)) and z3.get_var_index(x.arg(1)) == 0:
+                out[x.arg(0).get_id()] = x.arg(0)
+            stack.extend(x.children())
+    return list(out.values())
+
+
 def _own_nodes(fn):
     """nodes of fn excluding nested function bodies"""
     stack = list(fn.body)
@@ -242,9 +379,72 @@ def _own_nodes(fn):
             stack.append(ch)
 
 
-def verify_function(key, src=None, timeout_ms=10000, verbose=False):
+def _solve_child(eng, ob, timeout_ms, wfd):
+    """runs in a forked child: full ladder for one obligation, result as JSON on the pipe"""
+    try:
+        verdict, dt, model = eng.solve(ob, timeout_ms)
+        if verdict == "unknown":
+            verdict, dt2, model = eng.solve(ob, timeout_ms * 3, depth=3)
+            dt += dt2
+        rec = {"verdict": verdict, "seconds": round(dt, 4)}
+        if model is not None:
+            rec["model"] = model_summary(eng, model)
+    except Exception as e:  # engine fault: never a verdict
+        rec = {"verdict": "error", "seconds": 0.0, "error": f"{type(e).__name__}: {e}"}
+    try:
+        os.write(wfd, json.dumps(rec).encode())
+    finally:
+        os._exit(0)
+
+
+def solve_parallel(eng, obs, timeout_ms, hard_s, jobs):
+    """one forked child per obligation (z3 terms are not picklable; a fork shares them), at most
+    `jobs` at a time, each killed after hard_s seconds: z3's own timeout is not always honoured
+    (seq + quantifiers), and a stuck query must end `unknown`, never block the check."""
+    results = [None] * len(obs)
+    pending = list(range(len(obs)))
+    running = {}  # pid -> (idx, rfd, t0)
+    while pending or running:
+        while pending and len(running) < jobs:
+            idx = pending.pop(0)
+            rfd, wfd = os.pipe()
+            pid = os.fork()
+            if pid == 0:
+                os.close(rfd)
+                _solve_child(eng, obs[idx], timeout_ms, wfd)
+            os.close(wfd)
+            running[pid] = (idx, rfd, time.time())
+        time.sleep(0.01)
+        for pid in list(running):
+            idx, rfd, t0 = running[pid]
+            done, _ = os.waitpid(pid, os.WNOHANG)
+            if done == 0:
+                if time.time() - t0 > hard_s:
+                    os.kill(pid, signal.SIGKILL)
+                    os.waitpid(pid, 0)
+                    os.close(rfd)
+                    results[idx] = {"verdict": "unknown", "seconds": round(time.time() - t0, 2), "error": "hard timeout"}
+                    del running[pid]
+                continue
+            data = b""
+            while True:
+                chunk = os.read(rfd, 65536)
+                if not chunk:
+                    break
+                data += chunk
+            os.close(rfd)
+            try:
+                results[idx] = json.loads(data.decode())
+            except Exception:
+                results[idx] = {"verdict": "error", "seconds": round(time.time() - t0, 2), "error": "child died"}
+            del running[pid]
+    return results
+
+
+def verify_function(key, src=None, timeout_ms=8000, verbose=False, jobs=None, hard_s=90):
     """-> dict(status, clauses{clause: verdict}, obligations[...], info)"""
     t0 = time.time()
+    jobs = jobs or int(os.environ.get("PYVC_JOBS", "16"))
     try:
         eng = Engine(src)
         obs, info = eng.gen_obligations(key)
@@ -252,30 +452,30 @@ def verify_function(key, src=None, timeout_ms=10000, verbose=False):
         return {"key": key, "status": "unattachable", "reason": str(e), "clauses": {}, "obligations": [], "wall": time.time() - t0}
     except Exception as e:  # engine fault, never a verdict
         return {"key": key, "status": "engine-error", "reason": f"{type(e).__name__}: {e}", "trace": traceback.format_exc(), "clauses": {}, "obligations": [], "wall": time.time() - t0}
+    gen_s = time.time() - t0
+    solved = solve_parallel(eng, obs, timeout_ms, hard_s, jobs)
     results = []
     clauses = {}
-    for n, ob in enumerate(obs):
-        verdict, dt, model = eng.solve(ob, timeout_ms)
-        if verdict == "unknown":
-            verdict, dt2, model = eng.solve(ob, timeout_ms * 3, depth=3)
-            dt += dt2
-        rec = {"clause": ob.clause, "n": n, "verdict": verdict, "seconds": round(dt, 4), "note": ob.note}
-        if model is not None:
-            rec["model"] = model_summary(eng, model)
+    rank = {"proved": 0, "covered": 0, "unknown": 1, "error": 1, "vacuous": 2, "refuted": 3}
+    for n, (ob, r) in enumerate(zip(obs, solved)):
+        rec = {"clause": ob.clause, "n": n, "note": ob.note}
+        rec.update(r)
         results.append(rec)
         prev = clauses.get(ob.clause)
-        rank = {"proved": 0, "covered": 0, "unknown": 1, "vacuous": 2, "refuted": 3}
-        if prev is None or rank[verdict] > rank[prev]:
-            clauses[ob.clause] = verdict
+        if prev is None or rank[r["verdict"]] > rank[prev]:
+            clauses[ob.clause] = r["verdict"]
         if verbose:
-            print(f"  {verdict:8s} {dt:6.2f}s {ob.clause}  -- {ob.note[:70]}")
+            print(f"  {r['verdict']:8s} {r['seconds']:6.2f}s {ob.clause}  -- {ob.note[:70]}")
     status = "verified"
     if any(v == "refuted" for v in clauses.values()):
         status = "refuted"
-    elif any(v in ("unknown", "vacuous") for v in clauses.values()):
+    elif any(v == "error" for v in clauses.values()):
+        status = "engine-error"
+    elif any(v in ("unknown", "vacuous") for k, v in clauses.items() if not (v == "unknown" and "/cover:" in k)):
         status = "undecided"
     return {"key": key, "status": status, "clauses": clauses, "obligations": results, "info": info,
-            "sha": eng.src.func_sha(key), "wall": round(time.time() - t0, 3)}
+            "sha": eng.src.func_sha(key), "wall": round(time.time() - t0, 3), "gen_s": round(gen_s, 3),
+            "solver_s": round(sum(r["seconds"] for r in solved), 3)}
 
 
 def model_summary(eng, model):
